@@ -38,6 +38,12 @@ def run(ctx: RuleContext):
     ctx.sub(check_array_observations, ctx)
     ctx.sub(check_value_variables, ctx, r)
     ctx.sub(check_symbolic_namespaces, ctx)
+    # C17.4: every leaf of a PyTree is checked, whatever object it is: skipping leaves by identity
+    # (`id(leaf)` already seen) makes the verdict depend on aliasing between leaves, which tracing does not
+    # preserve (every flattened leaf becomes a tracer of its own) -- the leaf-loop clause of C08.3
+    from .c08 import check_leaf_loop
+
+    ctx.reuse("C17.4", check_leaf_loop, ctx)
 
 
 def _parents(root):
